@@ -123,12 +123,12 @@ void Exec::op_edit(Client &c) {
 		int i = modn(op->i("i"), m); Q v = argq(op, "v", 1); mpq_set(t.at(0), v.get_mpq_t()); rv = mpq_QSchange_rhscoef(p, i, t.at(0)); if (!rv) { M.rows[i].rhs = v; applied = true; }
 	} else if (what == "chgsense") {
 		if (!m) { T("  skip"); compare_others("edit"); return; }
-		int i = modn(op->i("i"), m); char s = sense_arg(op, "sense"); rv = mpq_QSchange_sense(p, i, s); if (!rv) { M.rows[i].sense = s; if (s == 'R') M.rows[i].range = 0; applied = true; }
+		int i = modn(op->i("i"), m); char s = sense_arg(op, "sense"); rv = mpq_QSchange_sense(p, i, s); if (!rv) { M.rows[i].sense = s; M.rows[i].range = 0; applied = true; }
 	} else if (what == "chgsenses") {
 		if (!m) { T("  skip"); compare_others("edit"); return; }
 		std::vector<int> rows; std::vector<char> ss; std::vector<long> l = parse_list(op->s("list", "0")); std::string sn = op->s("senses", "L");
 		for (size_t k = 0; k < l.size(); k++) { int i = modn(l[k], m); if (std::find(rows.begin(), rows.end(), i) != rows.end()) continue; rows.push_back(i); char ch = sn[k % sn.size()]; ss.push_back((ch == 'L' || ch == 'G' || ch == 'E' || ch == 'R') ? ch : 'L'); }
-		rv = mpq_QSchange_senses(p, (int)rows.size(), rows.data(), ss.data()); if (!rv) { for (size_t k = 0; k < rows.size(); k++) { M.rows[rows[k]].sense = ss[k]; if (ss[k] == 'R') M.rows[rows[k]].range = 0; } applied = true; }
+		rv = mpq_QSchange_senses(p, (int)rows.size(), rows.data(), ss.data()); if (!rv) { for (size_t k = 0; k < rows.size(); k++) { M.rows[rows[k]].sense = ss[k]; M.rows[rows[k]].range = 0; } applied = true; }
 	} else if (what == "chgrange") {
 		std::vector<int> rr; for (int i = 0; i < m; i++) if (M.rows[i].sense == 'R') rr.push_back(i);
 		if (rr.empty()) { T("  skip (no ranged row)"); compare_others("edit"); return; }
